@@ -79,6 +79,27 @@ def fam_lookup_race(rng, n, prefix="lk"):
     return out
 
 
+def fam_acceptor_first(rng, n, prefix="af"):
+    """The accepting side speaks first: it writes a greeting the moment Accept returns. The dialer is held
+    between writing the id and reading the acknowledgement, so that acknowledgement and greeting are both
+    waiting when it reads: the greeting must reach it complete."""
+    out = []
+    for i in range(n):
+        k = rng.randint(1, 3)
+        dials, accepts, holds = [], [], []
+        for j in range(k):
+            dside = rng.choice("HP")
+            id_ = rng.choice([50 + j, 50 + j, (1 << 24) + 50 + j])
+            at = rng.choice([0, 1, 100])
+            dials.append(call("d%d" % (j + 1), dside, id_, at))
+            accepts.append(call("a%d" % (j + 1), other(dside), id_, rng.choice([0, at, at + 50])))
+            holds.append({"g": "d%d" % (j + 1), "gate": "mux.dial.wrote", "until": at + rng.choice([200, 500, 1500])})
+        sc = mk("%s%d" % (prefix, i), dials, accepts, mode="ctl", seed=rng.randint(1, 1 << 30), holds=holds, fam="acceptor-first")
+        sc["acceptor_first"] = True
+        out.append(sc)
+    return out
+
+
 def fam_down(rng, n, prefix="dn"):
     """Calls in flight when the connection under the session is cut (the peer process dies): every call
     must still return, nothing may be reported as established afterwards, no goroutine may stay."""
